@@ -62,6 +62,10 @@ CHECKS = {
             'C06_insert_warnings, C06_item_delete_warnings (exactly one warning per absent / duplicate element, the rest applied), '
             'C06_fully_applied_is_silent, proved in Coq. Correspondence on (exception class, warning categories, resulting IDs).',
             'section 5 C06', 'Coq theorems on a Gallina model + extracted-model differential run'),
+    'C20': ('proof', 'Theorems C20_inspect_no_raise, C20_inspect_mentions_sources, C20_story_move_target, C20_sources_are_id_tags, '
+            'C20_carried_exposed about the accessor functions the merge model itself uses; differential run of every Python accessor '
+            '(target / source IDs, carried XML) and of the text inspect() prints, compact and pretty-printed.',
+            'section 5 C20', 'Coq theorems on the accessor model + extracted-model differential run of accessors and inspect()'),
 }
 
 
